@@ -156,6 +156,9 @@ func worldPlugins(w *World) {
 			p.mu.Lock()
 			p.calls = append(p.calls, pluginCall{rq.Op, snapshot.Content, w.Net.Now()})
 			p.mu.Unlock()
+			if n, _ := snapshot.Content["proxy_name"].(string); rq.Op == "NewProxy" && n == "late" {
+				time.Sleep(time.Second) // this registration takes a while: the session may be gone when the answer comes
+			}
 			switch p.outcome[rq.Op] {
 			case poAccept:
 				rw.Header().Set("Content-Type", "application/json")
@@ -502,10 +505,34 @@ func worldPlugins(w *World) {
 				ended = append(ended, n)
 			}
 		}
+		// ... and a registration may still be with the plugins when the session ends: whatever becomes of it, no proxy
+		// of the ended session may be left running without its end being notified
+		lateSent := false
+		if len(ended) > 0 && len(expect("NewProxy").called) > 0 && w.KnobBool("registration_in_flight_at_session_end", 50) {
+			lateSent = true
+			w.Probe("plugins.registration_in_flight_at_session_end")
+			c.Send(tNewProxy, M{"proxy_name": "late", "proxy_type": "tcp", "remote_port": 20005})
+			time.Sleep(200 * time.Millisecond)
+		}
 		if len(ended) > 0 {
 			snap()
 			c.Drop()
 			time.Sleep(3 * time.Second)
+			if lateSent {
+				time.Sleep(time.Duration(len(plugins)) * time.Second)
+				w.Check("C15.no-proxy-outlives-its-session-unnotified")
+				if env.frpsTCPPorts()[20005] {
+					n := 0
+					for _, p := range plugins {
+						for _, cl := range p.callsFor("CloseProxy") {
+							if nm, _ := cl.Content["proxy_name"].(string); nm == "late" {
+								n++
+							}
+						}
+					}
+					viol("notify", "proxy-outlives-session-unnotified", "a registration was still with the plugins when its session ended; the proxy was started afterwards, its port is bound %d s after the session's end, CloseProxy notifications for it: %d", 3+len(plugins), n)
+				}
+			}
 			for _, p := range plugins {
 				if p.ops["CloseProxy"] && p.outcome["CloseProxy"] != poUnreachable {
 					seen := map[string]int{}
